@@ -93,8 +93,16 @@ func init() {
 				}
 			}
 			for _, sh := range d.CertShapes {
-				for k := 0; k < 2; k++ {
+				hasX := false
+				for _, c := range sh {
+					hasX = hasX || c.(string) == "X"
+				}
+				for k := 0; k < 2 || (hasX && k < len(otherRunes)); k++ {
+					if hasX {
+						forceX = k
+					}
 					doSet("certRef", V{K: "text", N: len(sh), S: sh})
+					forceX = -1
 				}
 			}
 			for _, n := range []int{0, 1, 2, 46, 300} {
